@@ -54,6 +54,24 @@ def delimited_jelly_hint(header: bytes) -> bool:
     )
 
 
+class _PushbackReader(io.RawIOBase):
+    """Serve the bytes already taken from the head of a stream, then the rest of it."""
+
+    def __init__(self, head: bytes, rest: IO[bytes]) -> None:
+        self._head = head
+        self._rest = rest
+
+    def readable(self) -> bool:
+        return True
+
+    def readinto(self, buffer: bytearray) -> int | None:  # type: ignore[override]
+        if self._head:
+            size = min(len(buffer), len(self._head))
+            buffer[:size], self._head = self._head[:size], self._head[size:]
+            return size
+        return self._rest.readinto(buffer)  # type: ignore[attr-defined, no-any-return]
+
+
 def frame_iterator(inp: IO[bytes]) -> Generator[jelly.RdfStreamFrame]:
     while frame := parse_length_prefixed(jelly.RdfStreamFrame, inp):
         yield frame
@@ -82,8 +100,13 @@ def get_options_and_frames(
         # Input may not be seekable (e.g. a network stream) -- then we need to buffer
         # it to determine if it's delimited.
         # See also: https://github.com/Jelly-RDF/pyjelly/issues/298
-        inp = io.BufferedReader(inp)  # type: ignore[arg-type, type-var, unused-ignore]
-        is_delimited = delimited_jelly_hint(inp.peek(3))
+        # A single read may deliver fewer than the 3 bytes the detection needs, so keep
+        # reading until we have them (or the stream ends) and put them back in front.
+        header = b""
+        while len(header) < 3 and (chunk := inp.read(3 - len(header))):  # noqa: PLR2004
+            header += chunk
+        is_delimited = delimited_jelly_hint(header)
+        inp = io.BufferedReader(_PushbackReader(header, inp))  # type: ignore[arg-type, type-var, unused-ignore]
     else:
         is_delimited = delimited_jelly_hint(bytes_read := inp.read(3))
         inp.seek(-len(bytes_read), os.SEEK_CUR)
